@@ -63,7 +63,30 @@ type simSource struct {
 	nOne    int
 }
 
-type srcDirective struct{ fail bool }
+type srcDirective struct {
+	fail bool
+	kind int
+}
+
+// srcError is what a failing source returns. A source is foreign code: its
+// error may be plain, an API error, or wrap a context error of a deadline or
+// cancellation private to the source (an http.Client with a Timeout does the
+// former) while the caller's context is alive.
+func srcError(kind int) error {
+	switch kind {
+	case 1:
+		return fmt.Errorf("Get \"http://source/providers\": %w (Client.Timeout exceeded while awaiting headers)", context.DeadlineExceeded)
+	case 2:
+		return apierror.New(errors.New("source overloaded"), http.StatusServiceUnavailable)
+	case 3:
+		return apierror.New(errors.New("no such thing"), http.StatusNotFound)
+	case 4:
+		return fmt.Errorf("source gave up: %w", context.Canceled)
+	}
+	return errors.New("source unavailable")
+}
+
+var srcErrorNames = []string{"plain", "deadline", "api-503", "api-404", "canceled"}
 
 func (s *simSource) String() string { return s.name }
 
@@ -80,9 +103,9 @@ func (s *simSource) FetchAll(ctx context.Context) ([]*model.ProviderInfo, error)
 	}
 	if dir.fail {
 		call.failed = true
-		s.d.r.Fault("source-error")
-		s.d.r.Logf(s.name, "FetchAll -> error")
-		return nil, errors.New("source unavailable")
+		s.d.r.Fault("source-error-" + srcErrorNames[dir.kind])
+		s.d.r.Logf(s.name, "FetchAll -> error (%s)", srcErrorNames[dir.kind])
+		return nil, srcError(dir.kind)
 	}
 	var names []string
 	for n := range s.content {
@@ -113,9 +136,9 @@ func (s *simSource) Fetch(ctx context.Context, pid peer.ID) (*model.ProviderInfo
 	}
 	if dir.fail {
 		call.failed = true
-		s.d.r.Fault("source-error")
-		s.d.r.Logf(s.name, "Fetch(%s) -> error", name)
-		return nil, errors.New("source unavailable")
+		s.d.r.Fault("source-error-" + srcErrorNames[dir.kind])
+		s.d.r.Logf(s.name, "Fetch(%s) -> error (%s)", name, srcErrorNames[dir.kind])
+		return nil, srcError(dir.kind)
 	}
 	rec := s.content[name]
 	if rec == nil {
@@ -373,6 +396,7 @@ type pcDriver struct {
 	opSeq         int
 	clockMenu     []time.Duration
 	stopping      bool
+	errKinds      int // number of source error kinds in use
 }
 
 func (d *pcDriver) newVer(prov string, t int) *recVer {
@@ -400,6 +424,9 @@ func (d *pcDriver) sourceAction(p *simkit.Parked, failNum, failDen int) *simkit.
 	}
 	return &simkit.Action{Name: "answer " + p.Site + " " + p.Who, Weight: 2, Do: func() {
 		dir := srcDirective{fail: d.r.Tape.Chance(failNum, failDen, "srcfail")}
+		if dir.fail {
+			dir.kind = d.r.Tape.Choose(d.errKinds, "srcerrkind")
+		}
 		call.released = true
 		cs := d.calls(call.op)
 		*cs = append(*cs, call)
@@ -525,7 +552,7 @@ func (d *pcDriver) verByID(ver int) *recVer {
 }
 
 func pcSetup(r *simkit.Run, nsrc int, ttl, refreshIn time.Duration, preload bool, initial func(d *pcDriver)) *pcDriver {
-	d := &pcDriver{r: r, names: simkit.NewNamer(), ttl: ttl, refreshIn: refreshIn, allVers: map[int]*recVer{}}
+	d := &pcDriver{r: r, names: simkit.NewNamer(), ttl: ttl, refreshIn: refreshIn, allVers: map[int]*recVer{}, errKinds: 5}
 	r.InstallHooks(d.names)
 	for i := 1; i <= 6; i++ {
 		id := Identity(fmt.Sprintf("V%d", i))
